@@ -140,6 +140,8 @@ def _merge_call(c, fn, label, args):
             args[i][:] = snap[i]
         normal = [(cd, r, st) for cd, r, e, st in outcomes if e is None]
         errs = [(cd, e) for cd, r, e, st in outcomes if e is not None]
+        # error paths that contradict the input validity predicates alone never need a per-path query
+        errs = [(cd, e) for cd, e in errs if not c.globally_infeasible(cd)]
         if normal:
             mr = merge_values([(cd, r) for cd, r, st in normal])
             ml = {i: merge_values([(cd, st[i]) for cd, r, st in normal]) for i in lists}
